@@ -142,6 +142,7 @@ var srcHandles = map[string]srcHandle{
 	"int":                       srcOf[int]{},
 	"string":                    srcOf[string]{},
 	"map[string]map[string]any": srcOf[map[string]map[string]any]{},
+	"*any":                      srcOf[*any]{},
 }
 
 var tgtHandles = map[string]tgtHandle{
@@ -163,6 +164,7 @@ var tgtHandles = map[string]tgtHandle{
 	"int":                       tgtOf[int]{},
 	"string":                    tgtOf[string]{},
 	"map[string]map[string]any": tgtOf[map[string]map[string]any]{},
+	"*any":                      tgtOf[*any]{},
 }
 
 func fieldMapping(m Mapping, short bool) *compose.FieldMapping {
